@@ -36,6 +36,28 @@ pub fn fills_alphabet() -> Alphabet {
     Alphabet::new("fills", evs, r)
 }
 
+/// `fills-small`: the part of `fills` around one disposal day with two fills and a later day with its own purchase and
+/// sale, small enough to be explored one line deeper (all permutations of up to 6 lines at the quick tier).
+pub fn fills_small_alphabet() -> Alphabet {
+    let b = base();
+    let mut evs = vec![];
+    evs.push(alpha::buy(off(b, -40), "X", "20", "10", "1"));
+    evs.push(alpha::buy(off(b, -40), "Y", "20", "5", "0"));
+    evs.push(alpha::sell(off(b, 0), "X", "10", "30", "1"));
+    evs.push(alpha::sell(off(b, 0), "X", "6", "25", "0"));
+    evs.push(alpha::sell(off(b, 0), "Y", "5", "9", "0.5"));
+    // a line of another security that needs no earlier line of its own (it can stand between the two fills)
+    evs.push(alpha::buy(off(b, 0), "Y", "5", "6", "0"));
+    evs.push(alpha::buy(off(b, 5), "X", "10", "11", "0"));
+    evs.push(alpha::buy(off(b, 5), "X", "10", "20", "2"));
+    evs.push(alpha::sell(off(b, 5), "X", "10", "31", "1"));
+    evs.push(alpha::sell(off(b, 5), "X", "6", "26", "0"));
+    let mut r = Rules::STRICT;
+    r.one_buy = false;
+    r.one_sell = false;
+    Alphabet::new("fills-small", evs, r)
+}
+
 fn permutations(n: usize) -> Vec<Vec<usize>> {
     // Heap's algorithm, deterministic order
     let mut out = vec![];
@@ -273,6 +295,7 @@ pub fn c06(tier: Tier) -> i32 {
         *acc = merged;
     };
     run(&mut ctx, &mut acc, &fills_alphabet(), n_fills, None);
+    run(&mut ctx, &mut acc, &fills_small_alphabet(), n_fills + 1, None);
     run(&mut ctx, &mut acc, &profiles::match1(&["2"], true), n_m, None);
     run(&mut ctx, &mut acc, &profiles::two_sec(), n_two, None);
     run(&mut ctx, &mut acc, &profiles::events(&["2"]), n_ev, None);
